@@ -89,15 +89,16 @@ pub fn cmd_replay(args: &[String]) -> i32 {
             let mut name = d.clone();
             name.push("zzlinker".into());
             if let Some(t) = exp.get(&name.join("/")) {
-                // every reference was retitled with the heading of the note it resolves to
-                for line in t.lines() {
-                    if let (Some(url), true) = (first_link_url(line), line.starts_with('[')) {
-                        let text = &line[1..line.find("](").unwrap()];
-                        if let Some(k) = keys.iter().find(|k| title(k) == text) {
-                            let (u, _) = parse_url(&url);
-                            writeln!(out, "{}", json!({"ev":"write","via":"export of a block reference","k":k,"d":d,"raw":url,"url":u})).unwrap();
-                        }
-                    }
+                // the references come back in the order they were written (sorted keys): the i-th
+                // reference must still resolve to the i-th key, whatever text it was given
+                let urls: Vec<String> = t.lines().filter(|l| l.starts_with('[')).filter_map(|l| first_link_url(l)).collect();
+                if urls.len() != keys.len() {
+                    writeln!(out, "{}", json!({"ev":"write","via":"export of a block reference (count)","k":["<all>"],"d":d,"raw":format!("{} of {}", urls.len(), keys.len()),"url":{"up":0,"segs":[],"md":false,"dot":false}})).unwrap();
+                    continue;
+                }
+                for (k, url) in keys.iter().zip(urls.iter()) {
+                    let (u, _) = parse_url(url);
+                    writeln!(out, "{}", json!({"ev":"write","via":"export of a block reference","k":k,"d":d,"raw":url,"url":u})).unwrap();
                 }
             }
         }
